@@ -28,6 +28,12 @@ CHECKS = {
  "C16": ("exploration", "property-based testing with single-fault mutation operators decided by the project model; accept/reject oracle on in-process compiles",
          "Valid programs of the core/client-graph tiers must compile without diagnostics; mutants violating exactly one rule of the statement (10 operators) at a model-chosen location must be rejected with a diagnostic. 6k programs quick, 300k thorough.",
          "The 'generated language subset' is what G-PROJECT emits in those tiers (written into the evidence); list-typed variables are excluded by construction (recorded finding); compiler crashes are C08's business.", "5/C16"),
+ "C20": ("exploration", "stateful differential testing over the real inotify watcher + notify-debouncer-full: incremental watch state vs a fresh compile after every window of file-system actions",
+         "Generated histories of 1-6 windows of create / modify / delete / rename / move actions on files and folders (prefix-sibling folders, non-source and binary files, schema and extension edits, GCs) are applied to a real directory watched by the same debouncer the product builds; the collected events go through categorize_and_filter_events, update_sources and compile; after every window artifacts and diagnostics must equal a fresh CompilerState's and the watcher must not stop (Err from update_sources) or panic. 1600 histories quick, 48000 thorough.",
+         "Linux inotify as observed in this sandbox only; events of a window are processed as one batch; timing never decides a verdict (sentinel barrier, retries, else inconclusive); four recorded findings are excluded by construction and counted; stray files in the artifact directory are C18's business.", "5/C20"),
+ "C21": ("exploration", "stateful differential testing: live LspState vs a fresh server with the buffers opened, and vs a fresh server on the materialised effective contents",
+         "Generated histories of didOpen / didChange / didClose notifications, on-disk edits, GCs and queries (diagnostics, semantic tokens, formatting, hover, go-to-definition) over 4 files; every answer must equal the fresh servers' answers. 10000 histories (24k queries) quick, 300000 thorough.",
+         "ASCII contents; on-disk edits are delivered as synthesized notify events through the product's own categorisation; a handler panic is compared as an answer.", "5/C21"),
  "C24": ("exploration", "property-based testing over generated projects; hand model of the TypeScript conditional/template-literal type of iso.ts, verified against the file's shape on every run",
          "Accepted generated programs whose type/field names are prefixes of one another, with literal headers re-laid-out (whitespace kinds, spaces around the dot, leading whitespace), and the four checked-in projects: the first overload whose pattern is a prefix of the whitespace-stripped literal must exist and belong to the same declaration. 4k programs quick.",
          "No TypeScript compiler exists offline: tsc's overload resolution is modelled by hand (assumption text in the evidence); if iso.ts stops having the modelled shape the check is inconclusive, not failing.", "5/C24"),
